@@ -112,6 +112,7 @@ func TestPropSuperfluid(t *testing.T) {
 		locks := map[uint64]*lk{}
 		opsSinceRefresh := map[string]int{} // intermediary account address -> ops
 		justRefreshed := false
+		slashed := map[string]int{} // validator -> number of slashes
 		var hist []string
 		priceMoved, epochAfterMove, undelegated := false, false, false
 
@@ -243,6 +244,18 @@ func TestPropSuperfluid(t *testing.T) {
 					allowed := osmomath.NewInt(int64(2 * opsSinceRefresh[k]))
 					if justRefreshed {
 						allowed = osmomath.ZeroInt()
+					}
+					if slashed[val] > 0 {
+						// The statement quantifies over delegations, undelegations, top-ups, unbondings, price changes and
+						// epochs - not over validator slashes. After a slash the exchange rate of the validator is != 1 and
+						// the staking module's tokens -> shares -> tokens truncations (SDK, outside the repository) move the
+						// token value of an account's shares whenever ANY delegator of that validator acts; the refresh itself
+						// can be refused by staking's share validation (RoundInt of the current amount asks for a fraction of a
+						// share more than the account holds - observed on the unchanged tree: stake 17, expected 0, after a
+						// 1e-6 slash). The stake equality is therefore judged for never-slashed validators only; supply
+						// neutrality, markers and connections are judged for all.
+						cs.Class("stake-check-skipped-slashed-validator")
+						continue
 					}
 					if diff.GT(allowed) {
 						rt.Fatalf("intermediary account (%s, %s): staked %s, risk-adjusted value of the %s shares locked through it is %s (allowed drift %s, %d operations since the refresh, justRefreshed=%v) [history %v]", share, val[len(val)-6:], tokens, sum, E, allowed, opsSinceRefresh[k], justRefreshed, hist)
@@ -473,6 +486,37 @@ func TestPropSuperfluid(t *testing.T) {
 					epochAfterMove = true
 				}
 				hist = append(hist, "EPOCH")
+			},
+			// a validator is slashed (as the slashing / evidence modules do from BeginBlock): staking burns the fraction of every
+			// delegation including the intermediary accounts', superfluid's hook slashes the locks behind them. The burn is
+			// staking's, not superfluid's, so the supply baseline is re-read after it; everything superfluid does afterwards
+			// (undelegations and refreshes at an exchange rate != 1) must again leave the reported supply alone.
+			"slash": func(rt *rapid.T) {
+				val := valAddrs[rapid.IntRange(0, len(valAddrs)-1).Draw(rt, "val")]
+				frac := rapid.SampledFrom([]string{"0.01", "0.05", "0.07", "0.000001", "0.5"}).Draw(rt, "fraction")
+				if slashed[val] >= 2 {
+					rt.Skip("validator slashed twice already")
+				}
+				va, _ := sdk.ValAddressFromBech32(val)
+				v, err := sk.GetValidator(c.Ctx, va)
+				if err != nil || !v.IsBonded() {
+					rt.Skip("validator not bonded")
+				}
+				cons, _ := v.GetConsAddr()
+				power := v.GetConsensusPower(sk.PowerReduction(c.Ctx))
+				err = c.Try(func(ctx sdk.Context) error {
+					_, err := sk.Slash(ctx, cons, ctx.BlockHeight(), power, osmomath.MustNewDecFromStr(frac))
+					return err
+				})
+				if err != nil {
+					cs.Class("slash-failed")
+					return
+				}
+				slashed[val]++
+				supply0 = c.App.BankKeeper.GetSupplyWithOffset(c.Ctx, bond).Amount
+				justRefreshed = false
+				cs.Class("validator-slashed")
+				hist = append(hist, fmt.Sprintf("SLASH %s %s", val[len(val)-4:], frac))
 			},
 			"time": func(rt *rapid.T) {
 				dt := time.Duration(rapid.Int64Range(1, int64(30*24*time.Hour)).Draw(rt, "dt"))
